@@ -70,20 +70,10 @@ fn any_wf_grid(maxdim: usize) -> BaseGrid {
     BaseGrid { lat_n: kani::any(), lat_s: kani::any(), lon_w: kani::any(), lon_e: kani::any(), dlat: kani::any(), dlon: kani::any(), rows, cols, bands, offset: 0, grid }
 }
 
-//@h {"id":"C08.K.at.safe.geometry","props":["C08","C15","C09"],"tier":"thorough","kind":"bounded","bound":"rows, cols in 2..=3, bands in 1..=3; borders and spacings: all finite f64 with the sign convention plain() establishes; query point: all f64 bit patterns; margin in {0, 0.5, 1e-6}","timeout":3000,"text":"under WF(g), for symbolic geometry: contains/at never panic, overflow or read out of bounds for ANY query point; at() is Some exactly when contains() holds"}
-#[kani::proof]
-#[kani::unwind(30)]
-fn c08_at_safe_geometry() {
-    let g = any_wf_grid(3);
-    // what plain() establishes about the geometry: finite borders, dlat has the sign of lat_s - lat_n, dlon that of lon_e - lon_w
-    kani::assume(g.lat_n.is_finite() && g.lat_s.is_finite() && g.lon_w.is_finite() && g.lon_e.is_finite() && g.dlat.is_finite() && g.dlon.is_finite());
-    kani::assume((g.dlat > 0.0) == (g.lat_s > g.lat_n) && (g.dlon > 0.0) == (g.lon_e > g.lon_w) && g.dlat != 0.0 && g.dlon != 0.0);
-    let q = any4();
-    let m = any_margin();
-    let inside = g.contains(&q, m);
-    let v = g.at(&q, m);
-    assert!(v.is_some() == inside, "C08.K.at.safe.some_iff_contains: a value is delivered exactly for points inside grid + margin");
-}
+// (a variant of C08.K.at.safe with SYMBOLIC geometry -- borders and spacings any finite f64 with plain()'s sign
+//  convention -- did not finish in 3000 s: symbolic f64 divisions; withdrawn. The index arithmetic of at() is clamped
+//  and does not depend on the geometry values, which is why the concrete-geometry harness below is labelled complete
+//  in the query point only.)
 
 // concrete 3x3 geometry with exactly representable numbers: lat 4,2,0 (north to south), lon 0,8,16
 fn grid3(bands: usize, nodes: &[f32]) -> BaseGrid {
